@@ -454,4 +454,13 @@ theorem anymode_near (m : Spec.Mode) (k : Nat) (hk2 : 2 ≤ k) (hk3 : k ≤ 3)
   exact round_near m 1 (by norm_num) (by norm_num) k hk2 hk3 c e N a τ E neg
     (fun c0 e0 h => by rw [one_mul]; exact (roundTo_within_spacing hq h).le)
     hc0 hc he0 he1 hτ0 hτ1 hN hlo hhi
+
+/-- the hypotheses of `nearest_rootOk` are satisfiable: k = 2, c·10^e = 2, the 58-digit approximation
+N = 1414213562373095048801688724209698078569671875376948073180 of √2·10^57 (3.3 units too large), a = 4,
+remainder τ = 1/2 -/
+example := nearest_rootOk .nearestEven rfl 2 (by norm_num) (by norm_num) 2 0
+  1414213562373095048801688724209698078569671875376948073180 4 (1 / 2) (-57) false
+  (by norm_num) (by unfold Spec.Cmax; norm_num) (by unfold Spec.Emin; norm_num)
+  (by unfold Spec.Emax; norm_num) (by norm_num) (by norm_num) (by unfold Spec.Cmax; norm_num)
+  (by norm_num) (by norm_num)
 end Root
